@@ -103,3 +103,77 @@ package stdlib
 //@   ensures[C11] ok: (=> (= err nil.Any) (and (wf_deep ret) (is_number_ty (vty ret)) (not (is_null ret))))
 //@   ensures[C14] fails: (= (not (= err nil.Any)) nan)
 //@   ensures[C14] value: (=> (not nan) (and (kn ret) (=> (and (= (bf.inf A) 0) (= (bf.inf B) 0) (not (bf_iszero B))) (and (= (num_i ret) 0) (= (num_r ret) (rnd (imax (bf.prec A) (bf.prec B)) (/ (bf.val A) (bf.val B))))))))
+//
+// String functions defined as "what Go's strings package does": the result is the (normalized) image
+// of that library function on the argument strings, for every argument the parameter contract admits.
+//@ func stdlib.UpperFunc.Impl
+//@   tags C11 C14
+//@   spec_args stdlib.UpperFunc
+//@   ensures[C11] ok: (and (= result.1 nil.Any) (wf_deep result.0) (is_string_ty (vty result.0)) (not (is_null result.0)))
+//@   ensures[C14] value: (and (plain result.0) (= (str_of result.0) (nfc (ext.strings.ToUpper (str_of (val_at args 0))))))
+//
+//@ func stdlib.LowerFunc.Impl
+//@   tags C11 C14
+//@   spec_args stdlib.LowerFunc
+//@   ensures[C11] ok: (and (= result.1 nil.Any) (wf_deep result.0) (is_string_ty (vty result.0)) (not (is_null result.0)))
+//@   ensures[C14] value: (and (plain result.0) (= (str_of result.0) (nfc (ext.strings.ToLower (str_of (val_at args 0))))))
+//
+//@ func stdlib.TrimSpaceFunc.Impl
+//@   tags C11 C14
+//@   spec_args stdlib.TrimSpaceFunc
+//@   ensures[C11] ok: (and (= result.1 nil.Any) (wf_deep result.0) (is_string_ty (vty result.0)) (not (is_null result.0)))
+//@   ensures[C14] value: (and (plain result.0) (= (str_of result.0) (nfc (ext.strings.TrimSpace (str_of (val_at args 0))))))
+//
+//@ func stdlib.TitleFunc.Impl
+//@   tags C11 C14
+//@   spec_args stdlib.TitleFunc
+//@   ensures[C11] ok: (and (= result.1 nil.Any) (wf_deep result.0) (is_string_ty (vty result.0)) (not (is_null result.0)))
+//@   ensures[C14] value: (and (plain result.0) (= (str_of result.0) (nfc (ext.strings.Title (str_of (val_at args 0))))))
+//
+//@ func stdlib.TrimFunc.Impl
+//@   tags C11 C14
+//@   spec_args stdlib.TrimFunc
+//@   ensures[C11] ok: (and (= result.1 nil.Any) (wf_deep result.0) (is_string_ty (vty result.0)) (not (is_null result.0)))
+//@   ensures[C14] value: (and (plain result.0) (= (str_of result.0) (nfc (ext.strings.Trim (str_of (val_at args 0)) (str_of (val_at args 1))))))
+//
+//@ func stdlib.TrimPrefixFunc.Impl
+//@   tags C11 C14
+//@   spec_args stdlib.TrimPrefixFunc
+//@   ensures[C11] ok: (and (= result.1 nil.Any) (wf_deep result.0) (is_string_ty (vty result.0)) (not (is_null result.0)))
+//@   ensures[C14] value: (and (plain result.0) (= (str_of result.0) (nfc (ext.strings.TrimPrefix (str_of (val_at args 0)) (str_of (val_at args 1))))))
+//
+//@ func stdlib.TrimSuffixFunc.Impl
+//@   tags C11 C14
+//@   spec_args stdlib.TrimSuffixFunc
+//@   ensures[C11] ok: (and (= result.1 nil.Any) (wf_deep result.0) (is_string_ty (vty result.0)) (not (is_null result.0)))
+//@   ensures[C14] value: (and (plain result.0) (= (str_of result.0) (nfc (ext.strings.TrimSuffix (str_of (val_at args 0)) (str_of (val_at args 1))))))
+//
+//@ func stdlib.EqualFunc.Impl
+//@   tags C11
+//@   spec_args stdlib.EqualFunc
+//@   ensures[C11] ok: (and (= result.1 nil.Any) (wf_deep result.0) (is_bool_ty (vty result.0)) (not (is_null result.0)))
+//
+// min / max: the result is one of the arguments and no argument is smaller / larger.
+//@ func stdlib.MinFunc.Impl
+//@   tags C11 C14
+//@   spec_args stdlib.MinFunc
+//@   let n (Slice.len args)
+//@   ensures[C11] ok: (=> (= result.1 nil.Any) (and (wf_deep result.0) (is_number_ty (vty result.0)) (not (is_null result.0))))
+//@   ensures[C14] fails: (= (not (= result.1 nil.Any)) (= n 0))
+//@   ensures[C14] smallest: (=> (> n 0) (forall ((j Int)) (! (=> (and (trig j) (<= 0 j) (< j n)) (not (bf_lt (bf_of (val_at args j)) (bf_of result.0)))) :pattern ((trig j)))))
+//@   ensures[C14] member: (=> (> n 0) (or (= result.0 $G<cty.PositiveInfinity>) (exists ((j Int)) (! (and (trig j) (<= 0 j) (< j n) (= result.0 (val_at args j))) :pattern ((trig j))))))
+//@   loop 1 invariant (and (wf_deep min) (isnum min) (not (is_marked min)))
+//@   loop 1 invariant (forall ((j Int)) (! (=> (and (trig j) (<= 0 j) (< j $i)) (not (bf_lt (bf_of (val_at args j)) (bf_of min)))) :pattern ((trig j))))
+//@   loop 1 invariant (or (= min $G<cty.PositiveInfinity>) (exists ((j Int)) (! (and (trig j) (<= 0 j) (< j $i) (= min (val_at args j))) :pattern ((trig j)))))
+//
+//@ func stdlib.MaxFunc.Impl
+//@   tags C11 C14
+//@   spec_args stdlib.MaxFunc
+//@   let n (Slice.len args)
+//@   ensures[C11] ok: (=> (= result.1 nil.Any) (and (wf_deep result.0) (is_number_ty (vty result.0)) (not (is_null result.0))))
+//@   ensures[C14] fails: (= (not (= result.1 nil.Any)) (= n 0))
+//@   ensures[C14] largest: (=> (> n 0) (forall ((j Int)) (! (=> (and (trig j) (<= 0 j) (< j n)) (not (bf_lt (bf_of result.0) (bf_of (val_at args j))))) :pattern ((trig j)))))
+//@   ensures[C14] member: (=> (> n 0) (or (= result.0 $G<cty.NegativeInfinity>) (exists ((j Int)) (! (and (trig j) (<= 0 j) (< j n) (= result.0 (val_at args j))) :pattern ((trig j))))))
+//@   loop 1 invariant (and (wf_deep max) (isnum max) (not (is_marked max)))
+//@   loop 1 invariant (forall ((j Int)) (! (=> (and (trig j) (<= 0 j) (< j $i)) (not (bf_lt (bf_of max) (bf_of (val_at args j))))) :pattern ((trig j))))
+//@   loop 1 invariant (or (= max $G<cty.NegativeInfinity>) (exists ((j Int)) (! (and (trig j) (<= 0 j) (< j $i) (= max (val_at args j))) :pattern ((trig j)))))
